@@ -25,6 +25,7 @@ for id in "${ids[@]}"; do
   esac
   case $id in
     C08f) prof=c06; extra=" (C08 leg over the scan workload)";;
+    C08g) prof=c20; extra=" (C08 leg over the shared-connection workload)";;
   esac
   unset RACE RACECTL
   case $id in
